@@ -335,3 +335,31 @@ PROPS = {
         "assumptions": [],
     },
 }
+
+
+# ---------------------------------------------------------------------------
+# Amendments to the texts above, one per strengthening of a check (DESIGN.md section 7.3).
+def _amend(k, field, old, new):
+    v = PROPS[k][field]
+    if isinstance(v, list):
+        assert any(old in x for x in v), (k, field, old[:40])
+        PROPS[k][field] = [x.replace(old, new, 1) for x in v]
+    else:
+        assert old in v, (k, field, old[:40])
+        PROPS[k][field] = v.replace(old, new, 1)
+
+_amend("C03", "rule", "delivered through a scripted fragmenting reader.", "delivered through a scripted fragmenting reader; an Accept header naming another registered codec is drawn independently of the Content-Type.")
+_amend("C04", "rule", "or arbitrary HttpBody bytes/content type.", "or arbitrary HttpBody bytes/content type (incl. the empty string), and how the handler sets header metadata (not at all / SetHeader / SendHeader before replying).")
+_amend("C06", "rule", "transport, gzip (per-message or Content-Encoding),", "transport (gRPC, gRPC-web, grpc-web-text, HTTP JSON/protobuf/HttpBody in process; WebSocket over a real connection), gzip (Content-Encoding, or per message with the compressed flag drawn per frame once an encoding is negotiated),")
+_amend("C07", "rule", "on top-level/nested string and integer fields x sub-pattern x body none/*/book)", "on top-level/nested string, integer, well-known-type (FieldMask, Duration, wrappers) and oneof-member fields x sub-pattern x body none/*/book; 5 % of the rules are bound as WebSocket rules and driven over a real connection with 0-2 zero-length frames before the message)")
+_amend("C07", "rule", "and/or the JSON/protobuf body; oracle:", "and/or the JSON/protobuf body, optionally also through a key that reaches inside the bound field (label.value, ttl.seconds, update_mask.paths) or names its oneof sibling; oracle:")
+_amend("C07", "assumptions", "requests are driven in-process through Mux.ServeHTTP with httptest.ResponseRecorder", "HTTP requests are driven in-process through Mux.ServeHTTP with httptest.ResponseRecorder, WebSocket ones through a real loopback server and a gobwas client; on a WebSocket binding only the first message of the stream is bound to the URL, later messages are not asserted")
+_amend("C09", "rule", "bad base64, gzip)", "bad base64, truncated and well-formed gzip); 60 % of the cases start from a request that reaches a handler (every binding kind, optionally gzip-compressed) and apply 0-2 perturbations")
+_amend("C10", "rule", "failure point/code/message/details.", "failure point/code/message/details (messages with '%' before hex digits, control bytes, quotes and multi-byte runes).")
+_amend("C10", "assumptions", "with the HTTP/JSON front only response messages and, for failures before the first response, the status are compared", "with the HTTP/JSON front the response messages and the trailing google.rpc.Status object (after any number of replies) are compared; HTTP status line and headers are not")
+_amend("C12", "rule", "non-trivial = at least one request overlapped a writer operation (counted).", "after the plan every connection must be routed iff its last operation registered it, and the local services iff registered (a completed writer is never overwritten by another); non-trivial = at least one request overlapped a writer operation (counted).")
+_amend("C15", "rule", "connection close for HTTP/1.1).", "connection close for HTTP/1.1, also with a gzip-compressed request stream cut inside a deflate block).")
+_amend("C16", "rule", "a single-edit mutant, a field-path fault,", "a single-edit mutant (delete/insert/replace with grammar punctuation, identifier characters or 2-, 3- and 4-byte runes), a field-path fault,")
+_amend("C16", "rule", "supplied as annotation, service config or both.", "supplied as annotation, service config or both. All generated methods share the short name Mth (only full names differ).")
+_amend("C18", "rule", "transport (HTTP POST/GET, gRPC, gRPC-web),", "transport (HTTP POST/GET - the GET optionally with a stray body the binding does not map -, gRPC, gRPC-web), local service or RegisterConn-proxied backend, handler header/trailer metadata,")
+_amend("C19", "rule", "plus unknown and absent service).", "plus unknown and absent service; 1 case in 8 also follows a service through the documented WebSocket binding and must see its current and every later status).")
